@@ -317,6 +317,9 @@ type LInt int
 type LStr string
 type LFlt float64
 
+// MyStr is the namesake of ext.MyStr.
+type MyStr string
+
 type LStatus int
 
 func (s LStatus) String() string { tr.Hit("m:LStatus.String"); return "L" + tr.Itoa(int(s)) }
@@ -413,6 +416,7 @@ var Alphabet = []TypeAtom{
 	{"int32", "int32", "basic"},
 	{"LInt", "", "named-basic-local"},
 	{"LStr", "", "named-basic-local"},
+	{"MyStr", "", "named-basic-local-namesake-of-imported"},
 	{"ext.MyInt", "MyInt", "named-basic-imported"},
 	{"ext.MyStr", "MyStr", "named-basic-imported"},
 	{"LStatus", "", "stringer-value-local"},
